@@ -22,6 +22,8 @@ class Cell:
 
 
 def step(v, p):
+    while isinstance(v, Ref):
+        v = v.get()
     if isinstance(v, Agg):
         return v.fields[p]
     if isinstance(v, VecV):
@@ -32,6 +34,8 @@ def step(v, p):
 
 
 def step_set(v, p, nv):
+    while isinstance(v, Ref):
+        v = v.get()
     if isinstance(v, Agg):
         v.fields[p] = nv
     elif isinstance(v, VecV):
